@@ -31,6 +31,12 @@ func RunC13Sweep(p *Plan, env *Env) *RunResult {
 		return res
 	}
 	counts := res.EvCounts
+	kindOf := func(i int) string {
+		if i < len(res.StmtClass) {
+			return res.StmtClass[i]
+		}
+		return p.Stmts[i].Kind
+	}
 	r := NewRng(p.Seed ^ 0xc13)
 	budget, perStmt, perKind := 90, 45, 2
 	if p.Tier == "thorough" {
@@ -52,19 +58,19 @@ func RunC13Sweep(p *Plan, env *Env) *RunResult {
 	// taken branches (root splits, catalog growth) are the long ones
 	best := map[string]int{}
 	for _, i := range order {
-		k := p.Stmts[i].Kind
+		k := kindOf(i)
 		if b, ok := best[k]; !ok || counts[i] > counts[b] {
 			best[k] = i
 		}
 	}
 	var front []int
 	for _, i := range order {
-		if best[p.Stmts[i].Kind] == i {
+		if best[kindOf(i)] == i {
 			front = append(front, i)
 		}
 	}
 	for _, i := range order {
-		if best[p.Stmts[i].Kind] != i {
+		if best[kindOf(i)] != i {
 			front = append(front, i)
 		}
 	}
@@ -73,7 +79,7 @@ func RunC13Sweep(p *Plan, env *Env) *RunResult {
 		if budget <= 0 {
 			break
 		}
-		k := p.Stmts[i].Kind
+		k := kindOf(i)
 		if seen[k] >= perKind {
 			continue
 		}
